@@ -201,7 +201,8 @@ Section Render2.
     - assert (Hn : forall F : list nat, nilb (F ++ seq n0 k) = false).
       { intros [|? ?]; [destruct k; [lia | reflexivity] | reflexivity]. }
       rewrite Hn. reflexivity.
-    - intros i Hi. apply in_seq in Hi. destruct (killed K (Some i)) eqn:E; [|cbn; rewrite E; reflexivity].
+    - intros i Hi. apply in_seq in Hi. cbv beta.
+      match goal with |- negb ?t = true => destruct t eqn:E end; [|reflexivity].
       apply killed_In in E. apply K_old in E. lia.
   Qed.
 
@@ -226,8 +227,140 @@ Section Render2.
       apply (sort_render_old C XA XB lo). apply (rkL_old L0 H0 st Hst). }
     rewrite (Hside pre) by (intros st Hst; apply Hold; apply in_app_iff; left; exact Hst).
     rewrite (Hside post) by (intros st Hst; apply Hold; apply in_app_iff; right; exact Hst).
-    f_equal. f_equal.
-    apply (sort_render_new C XA XB lo lo_lines HP D b _ k Hk); try assumption.
+    assert (Hmid := sort_render_new C XA XB lo lo_lines HP D b (filter (fun i => negb (killed K (Some i))) O) k Hk).
+    f_equal. cbn [app]. f_equal. apply Hmid; [| exact S | exact HD | exact Hpw].
     apply Forall_forall. intros i Hi. apply filter_In in Hi. rewrite Forall_forall in HO. apply HO. tauto.
   Qed.
 End Render2.
+
+Lemma toks_less_total a b : a <> b -> toks_less a b = true \/ toks_less b a = true.
+Proof.
+  intros Hne. rewrite !toks_less_cmp. unfold lt_of.
+  pose proof (Verif.Semver.ProofsOrder.list_lex_POrd str_cmp Verif.Semver.ProofsStr.str_cmp_POrd) as P.
+  destruct (Verif.Semver.ProofsOrder.list_lex str_cmp a b) eqn:E.
+  - exfalso. apply Hne. exact (Verif.Semver.ProofsOrder.list_lex_Separating str_cmp Verif.Semver.ProofsStr.str_cmp_Separating a b E).
+  - left. reflexivity.
+  - right. rewrite (Verif.Semver.ProofsOrder.po_antisym _ P a b), E. reflexivity.
+Qed.
+
+Lemma pairwise_tokens (X : list hline) :
+  NoDup (map hl_tok X) ->
+  ForallOrdPairs (fun x y => toks_less (hl_tok x) (hl_tok y) = true \/ toks_less (hl_tok y) (hl_tok x) = true) X.
+Proof.
+  induction X as [|x r IH]; intros Hnd; [constructor|]. cbn [map] in Hnd. inversion Hnd as [|? ? Hni Hr]; subst.
+  constructor; [|apply IH; exact Hr]. apply Forall_forall. intros y Hy. apply toks_less_total.
+  intros E. apply Hni. rewrite E. apply in_map. exact Hy.
+Qed.
+
+(* ---------------------------------------------------------------- new lines appended to several blocks *)
+Definition sel (id : nat) (ps : list (nat * lid)) : list lid :=
+  map snd (filter (fun p => Nat.eqb (fst p) id) ps).
+
+Definition app_all (ps : list (nat * lid)) (st : stmt) : stmt :=
+  match st with
+  | SBlock b => SBlock (block_with_lines b (hb_lines b ++ sel (hb_id b) ps))
+  | _ => st
+  end.
+
+Section Render3.
+  Context (C XA XB : list hline) (lo : hblock -> list str -> list str -> bool).
+  Hypothesis lo_lines : forall b ls, lo (block_with_lines b ls) = lo b.
+  Let hA := C ++ XA.
+  Let hB := C ++ XB.
+  Let n0 := length C.
+  Context (K : list (option lid)).
+  Hypothesis K_old : forall i, In (Some i) K -> (i < n0)%nat.
+
+  Lemma sort_render_new2 b (O TA TB : list nat) :
+    Forall (fun i => (i < n0)%nat) O ->
+    Permutation (map (hget hA) TA) (map (hget hB) TB) ->
+    lo b = toks_less -> NoDup (map hl_tok (map (hget hA) TA)) ->
+    to_expr hA (sort_stmt hA lo (SBlock (block_with_lines b (O ++ TA))))
+    = to_expr hB (sort_stmt hB lo (SBlock (block_with_lines b (O ++ TB)))).
+  Proof.
+    intros HO HPm Hlo Hnd.
+    cbn [sort_stmt to_expr sort_block block_with_lines hb_com hb_lp hb_tok hb_lines hb_rp].
+    rewrite !lo_lines. f_equal. f_equal.
+    set (lessL := fun x y : hline => lo b (hl_tok x) (hl_tok y)).
+    assert (EA : map (fun i => to_line (hget hA i)) (stable_sort (fun i j => lo b (hl_tok (hget hA i)) (hl_tok (hget hA j))) (O ++ TA))
+                 = map to_line (stable_sort lessL (map (hget hA) (O ++ TA)))).
+    { rewrite <- (stable_sort_map (hget hA) lessL), map_map. reflexivity. }
+    assert (EB : map (fun i => to_line (hget hB i)) (stable_sort (fun i j => lo b (hl_tok (hget hB i)) (hl_tok (hget hB j))) (O ++ TB))
+                 = map to_line (stable_sort lessL (map (hget hB) (O ++ TB)))).
+    { rewrite <- (stable_sort_map (hget hB) lessL), map_map. reflexivity. }
+    rewrite EA, EB. f_equal. rewrite !map_app.
+    assert (EO : @map nat hline (hget hA) O = @map nat hline (hget hB) O).
+    { apply map_ext_in. intros i Hi. rewrite Forall_forall in HO. apply (old_agree C XA XB). apply HO. exact Hi. }
+    rewrite EO, !stable_sort_app. f_equal.
+    apply (sorted_perm_eq (fun x => any (hl_tok x)) lessL).
+    - unfold lessL. rewrite Hlo. exact (swo_pull_line any toks_less toks_less_swo).
+    - apply Forall_forall. intros x _. exact I.
+    - unfold lessL. rewrite Hlo. apply pairwise_tokens. exact Hnd.
+    - exact HPm.
+  Qed.
+
+  (* one statement of the old tree, with the new lines of the two runs *)
+  Lemma render_stmt2 PA PB st :
+    old_stmt C st ->
+    (forall p, In p PA -> (n0 <= snd p)%nat) -> (forall p, In p PB -> (n0 <= snd p)%nat) ->
+    (forall b, st = SBlock b ->
+       Permutation (map (hget hA) (sel (hb_id b) PA)) (map (hget hB) (sel (hb_id b) PB)) /\
+       (sel (hb_id b) PA <> [] -> lo b = toks_less) /\
+       NoDup (map hl_tok (map (hget hA) (sel (hb_id b) PA)))) ->
+    map (to_expr hA) (map (sort_stmt hA lo) (rkL K [app_all PA st]))
+    = map (to_expr hB) (map (sort_stmt hB lo) (rkL K [app_all PB st])).
+  Proof.
+    intros Hold HA HB Hblk. destruct st as [i|b|c]; cbn [app_all].
+    - unfold rkL. cbn [flat_map]. destruct (killed K (Some i)); [reflexivity|]. cbn [app map]. f_equal.
+      apply (sort_render_old C XA XB lo (SLine i) Hold).
+    - destruct (Hblk b eq_refl) as [HPm [Hlo Hnd]].
+      set (TA := sel (hb_id b) PA) in *. set (TB := sel (hb_id b) PB) in *.
+      assert (HTA : forall i, In i TA -> (n0 <= i)%nat).
+      { intros i Hi. unfold TA, sel in Hi. apply in_map_iff in Hi. destruct Hi as [p [<- Hp]]. apply filter_In in Hp. apply HA. tauto. }
+      assert (HTB : forall i, In i TB -> (n0 <= i)%nat).
+      { intros i Hi. unfold TB, sel in Hi. apply in_map_iff in Hi. destruct Hi as [p [<- Hp]]. apply filter_In in Hp. apply HB. tauto. }
+      assert (Hkeep : forall T : list lid, (forall i, In i T -> (n0 <= i)%nat) ->
+                filter (fun i => negb (killed K (Some i))) T = T).
+      { intros T HT. apply filter_all. intros i Hi. cbv beta.
+        match goal with |- negb ?t = true => destruct t eqn:E end; [|reflexivity].
+        apply killed_In in E. apply K_old in E. specialize (HT i Hi). lia. }
+      unfold rkL. cbn [flat_map block_with_lines hb_lines]. rewrite !app_nil_r, !filter_app.
+      rewrite (Hkeep TA HTA), (Hkeep TB HTB).
+      set (O := filter (fun i => negb (killed K (Some i))) (hb_lines b)).
+      assert (HO : Forall (fun i => (i < n0)%nat) O).
+      { apply Forall_forall. intros i Hi. apply filter_In in Hi. apply Hold. cbn [stmt_lines].
+        rewrite map_map. cbn [fst]. rewrite map_id. tauto. }
+      assert (Hlen : length TA = length TB) by (rewrite <- (map_length (hget hA) TA), <- (map_length (hget hB) TB); apply Permutation_length; exact HPm).
+      destruct TA as [|a ra] eqn:ETA.
+      + destruct TB as [|? ?]; [|discriminate Hlen]. rewrite !app_nil_r.
+        destruct (nilb O) eqn:EO; [reflexivity|]. cbn [map]. f_equal.
+        apply (sort_render_old C XA XB lo (SBlock (block_with_lines b O))).
+        intros i Hi. cbn [stmt_lines block_with_lines hb_lines hb_tok] in Hi. rewrite map_map in Hi. cbn [fst] in Hi.
+        rewrite map_id in Hi. rewrite Forall_forall in HO. apply HO. exact Hi.
+      + destruct TB as [|c rc] eqn:ETB; [discriminate Hlen|].
+        assert (N1 : forall X : list lid, nilb (O ++ a :: X) = false) by (intros X; destruct O; reflexivity).
+        assert (N2 : forall X : list lid, nilb (O ++ c :: X) = false) by (intros X; destruct O; reflexivity).
+        rewrite N1, N2. cbn [map]. f_equal.
+        apply (sort_render_new2 b O (a :: ra) (c :: rc) HO HPm); [apply Hlo; discriminate | exact Hnd].
+    - reflexivity.
+  Qed.
+
+  Theorem render_eq2 name nb fc L0 PA PB :
+    (forall st, In st L0 -> old_stmt C st) ->
+    (forall p, In p PA -> (n0 <= snd p)%nat) -> (forall p, In p PB -> (n0 <= snd p)%nat) ->
+    (forall b, In (SBlock b) L0 ->
+       Permutation (map (hget hA) (sel (hb_id b) PA)) (map (hget hB) (sel (hb_id b) PB)) /\
+       (sel (hb_id b) PA <> [] -> lo b = toks_less) /\
+       NoDup (map hl_tok (map (hget hA) (sel (hb_id b) PA)))) ->
+    to_syntax name (sortS lo (remove_killed (mkSyn hA nb fc (map (app_all PA) L0)) K))
+    = to_syntax name (sortS lo (remove_killed (mkSyn hB nb fc (map (app_all PB) L0)) K)).
+  Proof.
+    intros Hold HA HB Hblk. rewrite !remove_killed_rkL. unfold sortS, to_syntax. cbn [heap stmts fcom with_stmts]. f_equal.
+    induction L0 as [|st r IH]; [reflexivity|]. cbn [map].
+    change (app_all PA st :: map (app_all PA) r) with ([app_all PA st] ++ map (app_all PA) r).
+    change (app_all PB st :: map (app_all PB) r) with ([app_all PB st] ++ map (app_all PB) r).
+    rewrite !rkL_app, !map_app. f_equal.
+    - apply (render_stmt2 PA PB st (Hold st (or_introl eq_refl)) HA HB). intros b ->. apply Hblk. left. reflexivity.
+    - apply IH; [intros x Hx; apply Hold; right; exact Hx | intros b Hb; apply Hblk; right; exact Hb].
+  Qed.
+End Render3.
